@@ -476,6 +476,10 @@ func (b *Bank) Op(id uint64) (op OpSpec) {
 		}
 	case "C16":
 		op.Type = b.pick(id, r).Name
+		if isFocus(id) {
+			// the variant fixes the kind: encodes (exact, by value, generous), a size, decodes, a re-encode, a sequence
+			roll = []int{10, 40, 60, 75, 90, 20, 68, 5, 30, 55}[int((id-FocusBase)%FocusVariants)%10]
+		}
 		switch {
 		case roll < 35:
 			op.Kind, op.Buf = "enc", []string{"exact", "generous", "generous", "short", "shortspare", "shortspare"}[r.Intn(6)]
@@ -997,6 +1001,12 @@ func deriveCrowd(rs *RunSpec, b *Bank, r *model.Rng) bool {
 }
 
 func deriveC16(rs *RunSpec, b *Bank, r *model.Rng) {
+	var des []int
+	for i, s := range b.valid {
+		if designed(s) {
+			des = append(des, i)
+		}
+	}
 	rs.Rounds = 3 + r.Intn(4)
 	rs.Sched.StartAt = make([]int64, rs.Tasks*rs.Rounds)
 	slot, shared := 0, 0
@@ -1021,6 +1031,9 @@ func deriveC16(rs *RunSpec, b *Bank, r *model.Rng) {
 				if r.Chance(2, 3) {
 					k := r.Intn(nshared)
 					st.Op, st.Ev, st.Arg = sharedOps[k], "shared", shared+k
+				} else if len(des) > 0 && r.Chance(1, 3) {
+					// a hand-written shape, through one of its ten variants
+					st.Op = FocusBase + uint64(des[r.Intn(len(des))])*FocusVariants + uint64(r.Intn(FocusVariants))
 				} else {
 					st.Op = uint64(r.Intn(int(b.Size)))
 				}
